@@ -23,10 +23,12 @@ import (
 //	run|prun <api> <retries> <keep> <backoff> <max> <jit> <ctxkind> <k> <p> <outcome>*
 //	    api: ctx (RetryWithCtx) | some (RetrySome) | retry (Retry);  outcome: o | r<id> | f<id>
 //	    ctxkind: none | precancel | predeadline | inF (cancel inside call k) |
+//	             dl (context.WithDeadline(start+p), math/rand seeded with k when jitter is on) |
 //	             midwait (cancel p ns after call k returned) | midwaitDL (same, a context whose Err is
 //	             DeadlineExceeded and that reports no deadline) | deadline (context.WithDeadline(start+p))
 //	    -> "<calls> <nil|err|more|nonferror> <main> <is-bits> <n others> <others...>"
 //	    prun lines are run concurrently (they mostly sleep), before all other lines
+//	draws <seed> <cnt>    the values rand.Int63n(1<<a) yields for a = 1..cnt after rand.Seed(seed)
 //	tie <trials> <mode>   cancel inside call 1, every call fails recoverably, retries=4;
 //	    mode 0: BackOff=Max=1ns, mode 1: retry.Quick  -> "<trials> <trials in which f ran again> <max calls>"
 //	timing <backoff> <max> <jit> <seed> <retries>   every call fails recoverably
@@ -149,6 +151,11 @@ func c18Run1(f []string) string {
 		ctx = fc
 		endCtx = func() { fc.end(context.DeadlineExceeded) }
 	case "deadline":
+		ctx, cancel = context.WithDeadline(ctx, time.Now().Add(time.Duration(p)))
+	case "dl": // deadline p ns away; k seeds math/rand (jitter runs are not run concurrently)
+		if ebo.Jitter {
+			rand.Seed(int64(k))
+		}
 		ctx, cancel = context.WithDeadline(ctx, time.Now().Add(time.Duration(p)))
 	}
 	defer cancel()
@@ -278,6 +285,18 @@ func TestVerifC18(t *testing.T) {
 				sb.WriteString(strconv.FormatInt(r, 10))
 				sb.WriteByte(':')
 				sb.WriteString(c18NextWait(ebo, n))
+			}
+			ans[i] = sb.String()
+		case "draws":
+			seed, _ := strconv.ParseInt(f[1], 10, 64)
+			cnt, _ := strconv.Atoi(f[2])
+			rand.Seed(seed)
+			var sb strings.Builder
+			for a := 1; a <= cnt && a <= 62; a++ {
+				if a > 1 {
+					sb.WriteByte(' ')
+				}
+				sb.WriteString(strconv.FormatInt(rand.Int63n(int64(1)<<uint(a)), 10))
 			}
 			ans[i] = sb.String()
 		case "tie":
